@@ -127,7 +127,10 @@ Pick ==
 Serve ==
   /\ IsEvent("Serve")
   /\ LET must == Ev.ck # "" /\ Ev.ck \in DOMAIN ref      \* the cookie names a current member
-         stuck == must /\ (~Ev.invoked \/ Ev.k = Ev.ck) IN   \* ... and the code honoured it
+         free == Ev.ckfree                                   \* the property does not say whether this cookie counts
+         stuck == \/ must /\ (~Ev.invoked \/ Ev.k = Ev.ck)   \* ... and the code honoured it
+                  \/ free /\ Ev.sticky # "" /\ ~Ev.setcookie \* a "free" cookie was honoured (no new cookie was minted)
+     IN
      IF Ev.invoked
        THEN IF stuck
               THEN /\ bad' = ReportAll(bad, scn, l, <<
@@ -137,12 +140,14 @@ Serve ==
                    /\ UNCHANGED <<picks, cnt, idx, cw, drift>>
               ELSE /\ bad' = ReportAll(bad, scn, l, SelChecks(Ev.k) \o <<
                           <<~must, "C11.StuckToCookieServer">>,
+                          <<(Ev.sticky # "" /\ ~free) => Ev.setcookie, "C11.FreshCookieIssued">>,
                           <<Ev.status = Ev.hstatus, "C20.StatusRelayed">>,
                           <<NotMutated(Ev.members), "C02.PoolNotMutated">>,
                           <<MembersOK(Ev.members, ref), "C02.HandlerCannotAlterPool">> >>)
                    /\ SelUpdate(Ev.k)
                    /\ ImplStep(TRUE, Ev.k)
        ELSE /\ bad' = ReportAll(bad, scn, l, <<
+                   <<Ev.sticky # "" => ~RefServable(ref), "C11.NeverRejected">>,
                    <<~RefServable(ref), "C02.ServableNeverRefused">>,
                    <<Ev.status >= 500, "C02.ErrorResponseWhenUnservable">>,
                    <<MembersOK(Ev.members, ref), "C02.HandlerCannotAlterPool">> >>)
